@@ -221,7 +221,9 @@ def check_predictor(ctx, cfg, p, X, xq, st, info=None):
                 s_np, l_np = np.linalg.slogdet(H[r])
                 sv = np.linalg.svd(H[r], compute_uv=False)
                 cond = float(sv.max() / sv.min()) if sv.min() > 0 else np.inf
-                tl = 64 * d * d * fd.U * cond
+                # the method recomputes the Hessian inside another XLA program: it agrees with the returned one to the
+                # rounding bound ref["round"][1]; first-order perturbation of log|det|: sum_i |d lambda_i / lambda_i|
+                tl = 64 * d * d * fd.U * cond + (2 * d * d * ref["round"][1] / sv.min() if sv.min() > 0 else np.inf)
                 st.evals += 1
                 if np.isfinite(tl) and tl < 0.25:
                     st.ratio("slogdet", abs(float(sl[1][r]) - l_np) / tl, keyb)
